@@ -14,6 +14,7 @@ Assumptions that are *not* theorems: collision resistance of SHAKE256; AES inter
 only); that the compiler keeps the store in sqisign_secure_clear (observed at run time).
 -/
 import SqiProofs.KeccakPerm
+import SqiGen.KeccakParams
 import SqiProofs.SpongeMain
 import SqiProofs.Challenge
 import SqiProofs.C20Kat
